@@ -132,10 +132,21 @@ def run(ctx):
             d = G.spell(m, ctx.rng, level=ctx.rng.choice([0, 0.5, 1]))
             ex = ctx.rng.random() < 0.4
             try:
-                g = demes.Graph.fromdict(exotic(d, ctx.rng) if ex else d)
+                dd = exotic(d, ctx.rng) if ex else d
+                if ex and ctx.rng.random() < 0.4:
+                    import collections
+                    md = dd.get("metadata", {}) or {"k": [1, 2], "m": {"x": "y"}}
+                    dd = dict(dd, metadata=ctx.rng.choice([collections.UserDict(md), collections.ChainMap(dict(md)), collections.OrderedDict(md)]))
+                g = demes.Graph.fromdict(dd)
             except Exception as e:  # noqa: BLE001
                 if ex:
                     ctx.violation(f"a valid model written with numeric/string subclasses is rejected ({type(e).__name__})", {"document": show(canon_doc(d))})
+                continue
+            w0 = plain_types(g.asdict())
+            if w0:
+                ctx.count(show(canon_doc(d)), True, tags=["subclasses" if ex else "plain"])
+                ctx.violation("asdict: not built from plain numbers, strings, lists and mappings: " + w0.split(" is a ")[-1],
+                              {"document": show(canon_doc(d)), "subclasses": ex, "where": w0})
                 continue
             graphs.append(g); docs.append((d, ex))
         reqs = []
@@ -163,6 +174,13 @@ def run(ctx):
                         why = "resolving the fully-resolved dictionary gives a different dictionary"
                 except Exception as e:  # noqa: BLE001
                     why = f"the fully-resolved dictionary is rejected ({type(e).__name__}: {e})"
+            if why is None:
+                # the dictionary a graph was resolved from may be edited afterwards
+                a2 = g.asdict()
+                g3 = demes.Graph.fromdict(a2)
+                scribble(a2, ctx.rng)
+                if g3.asdict() != a:
+                    why = "editing the dictionary a graph was resolved from changed that graph"
             if why is None:
                 b = g.asdict()
                 scribble(b, ctx.rng)
